@@ -288,6 +288,28 @@ func (p *Prog) verifyFunc(fi *FuncInfo, spec *FuncSpec, degraded bool, unroll ..
 	for _, o := range outs {
 		sink.exits = append(sink.exits, vc.runDefers(o)...)
 	}
+	// vacuity: some exit of the function must be reachable (unless the entry state is not): a path that dies on a
+	// contradictory assumption would otherwise make the postconditions and @exit claims trivially true
+	if len(sink.exits) > 0 && spec.Opts["noreturn"] != "true" {
+		base := len(vc.entry.facts)
+		var alts []string
+		ok := true
+		for _, ex := range sink.exits {
+			if len(ex.facts) < base {
+				ok = false
+				break
+			}
+			alts = append(alts, and(ex.facts[base:]...))
+		}
+		if ok {
+			cst := vc.entry.clone()
+			cst.assume(or(alts...))
+			if o := vc.oblige(cst, "cover-exit", "some exit of "+fi.Key+" is reachable", spec.Where, "false", nil); o != nil {
+				o.Cover = true
+				o.PreFacts = append([]string(nil), vc.entry.facts...)
+			}
+		}
+	}
 	// postconditions at every exit
 	for _, ex := range sink.exits {
 		vc.checkPost(ex)
